@@ -38,10 +38,52 @@ fn blob(rng: &mut Rng, max: usize) -> Vec<u8> {
     rng.bytes(n)
 }
 
+/// cipher-suite ids that mean something to the registry (NULL, SCSVs, TLS 1.3, common ECDHE) or nothing
+pub fn cipher_id(rng: &mut Rng) -> u16 {
+    if rng.chance(1, 2) {
+        *rng.pick(&[0x0000u16, 0x00ff, 0x5600, 0x0001, 0x002f, 0x0035, 0x009c, 0x1301, 0x1302, 0x1303, 0xc02b, 0xc02f, 0xc030, 0xcca8, 0x0a0a, 0xffff])
+    } else {
+        rng.u16()
+    }
+}
+
+/// a well-formed extension block: what real hellos carry (the hello parsers keep it opaque, but
+/// consumers - and content-dependent bugs - look inside)
+pub fn extension_block(rng: &mut Rng, max: usize) -> Vec<u8> {
+    let mut v = Vec::new();
+    for _ in 0..rng.urange(0, 4) {
+        let e = if rng.chance(1, 3) {
+            // supported_versions, client list form or server selected form
+            let vers: Vec<u16> = (0..rng.urange(1, 3)).map(|_| *rng.pick(&[0x0304u16, 0x0303, 0x7f12, 0x7f17, 0x7f1c, 0x0301, 0x0a0a])).collect();
+            let mut c = Vec::new();
+            if rng.chance(1, 2) {
+                c.extend_from_slice(&vers[0].to_be_bytes());
+            } else {
+                c.push((vers.len() * 2) as u8);
+                for x in &vers {
+                    c.extend_from_slice(&x.to_be_bytes());
+                }
+            }
+            let mut e = vec![0, 43];
+            e.extend_from_slice(&(c.len() as u16).to_be_bytes());
+            e.extend(c);
+            e
+        } else {
+            crate::structs::extension(rng)
+        };
+        if v.len() + e.len() > max {
+            break;
+        }
+        v.extend(e);
+    }
+    v
+}
+
 fn opt_ext(rng: &mut Rng, max: usize) -> Option<Vec<u8>> {
-    match rng.below(4) {
+    match rng.below(6) {
         0 => None,
         1 => Some(Vec::new()),
+        2 | 3 => Some(extension_block(rng, max)),
         _ => Some(blob(rng, max)),
     }
 }
@@ -71,7 +113,11 @@ pub fn handshake(rng: &mut Rng, kind: &str, budget: usize) -> Item {
         "client_hello" => {
             let ciphers = {
                 let n = rng.small_len(((b / 4).min(32767)).max(1));
-                rng.bytes(n * 2)
+                match rng.below(4) {
+                    0 => (0..n).flat_map(|_| rng.pick(&[0x1301u16, 0x1302, 0x1303]).to_be_bytes()).collect(),
+                    1 => (0..n).flat_map(|_| cipher_id(rng).to_be_bytes()).collect(),
+                    _ => rng.bytes(n * 2),
+                }
             };
             let comp = blob(rng, (b / 8).min(255));
             it.int("ver", version(rng) as u64)
@@ -87,14 +133,14 @@ pub fn handshake(rng: &mut Rng, kind: &str, budget: usize) -> Item {
             it.int("ver", ver as u64)
                 .bytes("random", &rng.bytes(32))
                 .opt_bytes("sid", sid(rng).as_deref())
-                .int("cipher", rng.u16() as u64)
-                .int("comp", rng.u8() as u64)
+                .int("cipher", cipher_id(rng) as u64)
+                .int("comp", if rng.chance(1, 2) { 0 } else { rng.u8() as u64 })
                 .opt_bytes("ext", ext.as_deref())
         }
         "server_hello_d18" => it
             .int("ver", 0x7f12)
             .bytes("random", &rng.bytes(32))
-            .int("cipher", rng.u16() as u64)
+            .int("cipher", cipher_id(rng) as u64)
             .opt_bytes("ext", opt_ext(rng, (b / 2).min(65535)).as_deref()),
         "new_session_ticket" => it.int("hint", rng.u32() as u64).bytes("ticket", &blob(rng, b)),
         "hello_retry_request" => it
@@ -126,6 +172,22 @@ pub fn handshake(rng: &mut Rng, kind: &str, budget: usize) -> Item {
         "key_update" => it.int("v", rng.u8() as u64),
         "next_protocol" => it.bytes("proto", &blob(rng, 255.min(b / 2))).bytes("padding", &blob(rng, 255.min(b / 2))),
         _ => it,
+    }
+}
+
+/// SSLv3 defines no extension block; bytes behind the compression method (e.g. the empty block
+/// `00 00` this crate's own serializer emits) are ignored and `ext` reads back absent. Only the
+/// TLS stream world asks for this wire-only decoration.
+pub fn sslv3_trailing(rng: &mut Rng, m: Item) -> Item {
+    if m.kind == "server_hello" && m.u("ver") == 0x0300 && rng.chance(1, 2) {
+        let t = match rng.below(3) {
+            0 => vec![0, 0],
+            1 => vec![0, 2, rng.u8(), rng.u8()],
+            _ => blob(rng, 12),
+        };
+        m.bytes("_trail", &t)
+    } else {
+        m
     }
 }
 
